@@ -466,6 +466,8 @@ class RunS(Unit):
         yield "record", dict(record=True)
         # uniform generations ({a, b}, {a, b}, {sup}): the generations are folded by jax.lax.scan over the stacked timings of each kind's slots
         yield "uniform generations (scan)", dict(record=False, uniform=True)
+        # 11 generations: slot names s<kind>_<i> sort differently as text (.._1, .._10, .._2) than by generation
+        yield "uniform generations (scan), 11 slots per kind", dict(record=False, uniform=True, gens=11)
 
     def opts(self, cfg):
         def scan(ex, f, init, xs, length):
@@ -487,7 +489,11 @@ class RunS(Unit):
         nodes = {"a": mk("a"), "b": mk("b"), "sup": mk("sup")}
         layout = {"a_0": ("a", 0), "b_0": ("b", 0), "a_1": ("a", 1), "sup_0": ("sup", 2)}    # non-uniform generations: {a, b}, {a}, {sup}
         if cfg.get("uniform"):
-            layout = {"a_0": ("a", 0), "b_0": ("b", 0), "b_1": ("b", 1), "a_1": ("a", 1), "sup_0": ("sup", 2)}
+            G = cfg.get("gens", 2)
+            layout = {}
+            for g in range(G):
+                layout.update({f"a_{g}": ("a", g), f"b_{g}": ("b", g)} if g % 2 == 0 else {f"b_{g}": ("b", g), f"a_{g}": ("a", g)})
+            layout["sup_0"] = ("sup", G)
             ex.lib.ns["jax.numpy"].entries["stack"] = lambda ex_, args, axis=0: _Stk(list(args))
         fslots = {s: Rec("SlotVertex", dict(seq=None, ts_start=None, ts_end=None, windows={}, run=NdShape((E, P)), kind=k, generation=g), module=BASE, frozen=True) for s, (k, g) in layout.items()}
         timings = Rec("Timings", dict(slots=fslots), module=BASE, frozen=True)
@@ -527,7 +533,8 @@ class RunS(Unit):
         out = ex.call(run_S, [gs0], {})
         if cfg.get("uniform"):
             # scan: generation g is handed, under the key of each kind's FIRST slot, the timings of that kind's g-th slot
-            ok = len(gen_calls) == 2 and all(set(tg) == {"a_0", "b_0"} for _, tg in gen_calls)
+            G = cfg.get("gens", 2)
+            ok = len(gen_calls) == G and all(set(tg) == {"a_0", "b_0"} for _, tg in gen_calls)
             ctx.ensure("C07 uniform generations: one scan iteration per generation, in order, keyed by each kind's first slot", z3.BoolVal(ok))
             if not ok or len(upd_calls) != 1:
                 ctx.ensure("the supervisor's inputs are updated exactly once", z3.BoolVal(len(upd_calls) == 1))
@@ -541,7 +548,7 @@ class RunS(Unit):
                                       toz(t.f["run"]) == z3.Select(es.f["run"].a, cl), z3.BoolVal(t.f["kind"] == kind)))
             ug, ut = upd_calls[0]
             ctx.ensure("C07 the supervisor's inputs are updated last, from the state after the last generation, with the supervisor slot's timings of this step",
-                       z3.And(z3.BoolVal(ug.f["state"]["a"].eq(z3.Const("g2.a.state", Leaf))), toz(ut.f["seq"]) == seqsup))
+                       z3.And(z3.BoolVal(ug.f["state"]["a"].eq(z3.Const(f"g{G}.a.state", Leaf))), toz(ut.f["seq"]) == seqsup))
             ctx.ensure("C09 step counter: clipped into [0, max_step - 1], then + 1", toz(out.f["step"]) == cl + 1)
             return
         ctx.ensure("C07 generations are executed in index order, one call per generation (supervisor generation excluded)",
